@@ -38,7 +38,7 @@ class C05(Prop):
     shard = 40
     rule = ("exhaustive grid n_samples 1..N x batch_size in 1..N+2, 'full', None (N=6 gaussian, 4 poisson/variance, 3 excitation in the quick tier; "
             "8/6/4 thorough) on seeded well-scaled systems with finite bounds, baseline and per-sample weights, rows mixed in- and out-of-gamut and "
-            "pairwise distinct; every run is compared with the batch_size=1 run (predicted captures) and its hook records (batch index, padded?, rows "
+            "pairwise distinct; half of the variance systems with a requested total intensity (L1) per row; W='inverse' systems with one target 4096 times brighter than the others; every run is compared with the batch_size=1 run (predicted captures) and its hook records (batch index, padded?, rows "
             "written, stacked targets and weights handed to the solver) with the Coq plan. non-trivial = batch_size >= 2 and n >= 2 (padded or multi-row batch)")
     assumptions = ["solver opaque; 'same predicted captures' is asserted to 2e-3 capture units (gaussian/poisson/variance with tight CLARABEL settings) and 2e-2 (excitation, SCS bisection)",
                    "hook `solve` in lsq_linear._solve_problem / lsq_linear_minimize copies (idx, padded, rows, w_, b_) after each solve"]
@@ -67,6 +67,9 @@ class C05(Prop):
                 # weights: one row of W per sample, or ONE per-receptor vector for all samples (then the number of samples is made equal to the
                 # number of receptors where possible: a vector of that length must still be read per receptor)
                 wvec = rng.random() < 0.4
+                force = {("gaussian", 2): "winv", ("gaussian", 5): "winv", ("gaussian", 3): "wvec"}.get(key)     # every run has these, whatever the seed
+                if force:
+                    wvec = force == "wvec"
                 for _ in range(50):
                     sys = gs.gen_system(rng, mrange=((n, n) if (wvec and 2 <= n <= 4) else (2, 4)), nrange=(2, 5), finite_ub=True, Kkind=rng.choice(["none", "scalar", "vector"]))
                     if proc in ("poisson", "excitation") and (np.ndim(sys["baseline"]) == 0 and sys["baseline"] == 0):
@@ -90,13 +93,19 @@ class C05(Prop):
                 # targets handed over in column-major memory order (e.g. a transposed stack, DataFrame.to_numpy())
                 sys["forder"] = bool(rng.random() < 0.35)
                 # W='inverse' of the library function: every weight is one over its own target (gaussian only, direct call)
-                sys["winv"] = bool(proc == "gaussian" and (not wvec) and rng.random() < 0.3 and all(v > 0 for r in rows for v in r))
+                sys["winv"] = bool(proc == "gaussian" and (not wvec) and (force == "winv" or rng.random() < 0.3) and all(v > 0 for r in rows for v in r))
+                if sys["winv"] and n >= 2 and (force == "winv" or rng.random() < 0.5):
+                    # one bright target (x 4096) in the same call: the weights of the other rows are still one over THEIR OWN captures
+                    rows[0] = [v * 4096.0 for v in rows[0]]; kinds[0] = "bright"
                 if sys["winv"]:
                     W = [[1.0 / v for v in r] for r in rows]
+                # variance minimisation with a requested total intensity per row (the total of the row's own ordinary fit)
+                sys["l1"] = bool(proc == "variance" and (n % 2 == 0 or rng.random() < 0.3))
                 systems[key] = ({k: (v.tolist() if isinstance(v, np.ndarray) else v) for k, v in sys.items()}, rows, W, kinds)
             sysd, rows, W, kinds = systems[key]
             cases.append({"proc": proc, "n": n, "bs": b, "sys": sysd, "B": rows, "W": W, "tk": kinds,
-                          "kind": "%s/%s%s" % (proc, combo_kind(n, b), "/wvec" if sysd.get("wvec") else "") + ("/F" if sysd.get("forder") else "") + ("/Winv" if sysd.get("winv") else "")})
+                          "kind": "%s/%s%s" % (proc, combo_kind(n, b), "/wvec" if sysd.get("wvec") else "") + ("/F" if sysd.get("forder") else "") + ("/Winv" if sysd.get("winv") else "")
+                                  + ("/bright" if "bright" in kinds else "") + ("/L1" if sysd.get("l1") else "")})
         return cases
 
     def call(self, case, bs):
@@ -120,7 +129,11 @@ class C05(Prop):
             est.register_targets(B, W=W)
         proc = case["proc"]
         core.drain_hooks()
-        if proc == "variance":
+        if proc == "variance" and case["sys"].get("l1"):
+            Xo, _ = est.fit(B, **HI)
+            core.drain_hooks()
+            X, Bp, Bv = est.minimize_variance(B, batch_size=bs, L1=np.asarray(Xo, dtype=float).sum(axis=1), l1_eps=1e-2, **HI)
+        elif proc == "variance":
             X, Bp, Bv = est.minimize_variance(B, batch_size=bs, **HI)
         elif proc == "excitation":
             X, Bp = est.fit(B, model="excitation", batch_size=bs)
